@@ -30,7 +30,9 @@ fn(R + "__call__", cls="ScopedRegistry", props=["C52"],
    ],
    ensures=["implies(old(dhas(self.registry, " + KEY + ")), result is old(dget(self.registry, " + KEY + ")))",
             "dhas(self.registry, " + KEY + ") and dget(self.registry, " + KEY + ") is result",
-            "implies(old(dhas(self.registry, " + KEY + ")), keys(self.registry) == old(keys(self.registry)))"],
+            "implies(old(dhas(self.registry, " + KEY + ")), keys(self.registry) == old(keys(self.registry)))",
+            # a scope that already has its object: the call changes nothing at all
+            "implies(old(dhas(self.registry, " + KEY + ")), " + OTHERS_UNTOUCHED + ")"],
    # every other scope is untouched *by this call*: relative to what the environment left when the factory returned
    # concrete counterpart of the interference clauses: the harness' factory lets a competing thread's entry appear
    c_ensures=["implies(competing is not None, result is competing and dget(self.registry, " + KEY + ") is competing)"],
@@ -43,3 +45,78 @@ fn(R + "set", cls="ScopedRegistry", props=["C52"], returns="none",
 fn(R + "clear", cls="ScopedRegistry", props=["C52"], returns="none",
    ensures=["not dhas(self.registry, " + KEY + ")", OTHERS_UNTOUCHED, KEYS_ORDER],
    modifies=["contents(self.registry)"], harness="registry.clear")
+
+
+# ---------------------------------------------------------------------------------------------------------------------
+# ThreadLocalRegistry: the scope is the running thread; storage is a threading.local().  `tlocal` is the *current thread's
+# view* of that object: one attribute `value` that may be absent.  Other threads' views are different storage by
+# construction of threading.local (trusted: CPython), so "other scopes untouched" is the frame `self.registry.value` only.
+cls("tlocal", fields={"value": "maybe:v"})
+TL = "util/_collections.py::ThreadLocalRegistry."
+cls("ThreadLocalRegistry", fields={"createfunc": "fn", "registry": "obj:tlocal"},
+    methods={n: TL + n for n in ["__init__", "__call__", "has", "set", "clear"]})
+HAS = "hasattr(self.registry, 'value')"
+fn(TL + "__init__", cls="ThreadLocalRegistry", props=["C52"], returns="none", callees={"threading.local": "newobj:tlocal"},
+   ensures=["self.createfunc is createfunc", "fresh(self.registry)", "not " + HAS, "isinst(self.registry, tlocal)"],
+   modifies=["self.createfunc", "self.registry"])
+fn(TL + "__call__", cls="ThreadLocalRegistry", props=["C52"], callees={"self.createfunc": "havoc:v"},
+   ensures=["implies(old(" + HAS + "), result is old(self.registry.value))",
+            HAS + " and self.registry.value is result"],
+   s_ensures=["implies(old(" + HAS + "), not called('self.createfunc'))"],
+   modifies=["self.registry.value"])
+fn(TL + "has", cls="ThreadLocalRegistry", props=["C52"], returns="bool", ensures=["result == " + HAS], modifies=[])
+fn(TL + "set", cls="ThreadLocalRegistry", props=["C52"], returns="none", ensures=[HAS + " and self.registry.value is obj"],
+   modifies=["self.registry.value"])
+fn(TL + "clear", cls="ThreadLocalRegistry", props=["C52"], returns="none", ensures=["not " + HAS], modifies=["self.registry.value"])
+
+# ScopedRegistry.__init__ (used by scoped_session when a scopefunc is given)
+fn(R + "__init__", cls="ScopedRegistry", props=["C52"], returns="none",
+   ensures=["self.createfunc is createfunc", "self.scopefunc is scopefunc", "fresh(self.registry)", "len(keys(self.registry)) == 0"],
+   modifies=["self.createfunc", "self.scopefunc", "self.registry"])
+from pyvc.contract import CLASSES  # noqa: E402
+CLASSES["ScopedRegistry"].methods["__init__"] = R + "__init__"
+
+# ---------------------------------------------------------------------------------------------------------------------
+# scoped_session: which registry carries the scope, and remove().  `Session._g_closed` is a ghost marker meaning "close()
+# has been called on this object" (assumed contract of Session.close, which is outside the proof).
+S = "orm/scoping.py::scoped_session."
+cls("Session", fields={"_g_closed": "bool"}, methods={"close": "orm/session.py::Session.close@ghost"})
+fn("orm/session.py::Session.close@ghost", abstract=True, cls="Session", params=["self"], returns="none",
+   ensures=["self._g_closed"], modifies=["self._g_closed"], notes="ghost: close() was called on this session")
+cls("scoped_session", fields={"session_factory": "fn", "registry": "v"}, methods={})
+fn(S + "__init__", cls="scoped_session", props=["C52"], returns="none",
+   ensures=["self.session_factory is session_factory", "fresh(self.registry)",
+            # a given scopefunc defines the scope; its registry starts empty and creates with the session factory
+            "implies(truth(scopefunc), isinst(self.registry, ScopedRegistry))",
+            # no scopefunc: the scope is the running thread, and the slot lives in thread-local storage -- it dies with the
+            # thread, so a later thread (even one that is given a recycled thread id) starts with no Session
+            "implies(not truth(scopefunc), isinst(self.registry, ThreadLocalRegistry))"],
+   modifies=["self.session_factory", "self.registry"])
+
+# remove(): close and discard only the current scope's Session.  One contract per registry kind (tagged keys).
+TLV = "self.registry.registry.value"
+THAS = "hasattr(self.registry.registry, 'value')"
+fn(S + "remove#threadlocal", cls="scoped_session", props=["C52"], returns="none",
+   types={"expr:self.registry": "ThreadLocalRegistry", "expr:" + TLV: "Session", "._g_closed": "bool"},
+   callees={"self.registry": dict(fn=TL + "__call__", recv="self.registry", args=[], returns="Session")},
+   requires=["isinst(self.registry, ThreadLocalRegistry)", "implies(" + THAS + ", isinst(" + TLV + ", Session))"],
+   ensures=["not " + THAS,
+            # the Session that was current is closed before it is discarded
+            "implies(old(" + THAS + "), old(" + TLV + ")._g_closed)"],
+   # nothing but the current thread's slot and that Session is touched; no factory call (no Session is created to be closed)
+   s_ensures=["not called('self.registry')  or  old(" + THAS + ")"],
+   modifies=[TLV, TLV + "._g_closed"])
+SKEY = "call(self.registry.scopefunc)"
+SREG = "self.registry.registry"
+fn(S + "remove#scopefunc", cls="scoped_session", props=["C52"], returns="none",
+   types={"expr:self.registry": "ScopedRegistry", "expr:dget(" + SREG + ", " + SKEY + ")": "Session", "._g_closed": "bool"},
+   callees={"self.registry": dict(fn=R + "__call__", recv="self.registry", args=[], returns="Session"),
+            "self.createfunc": dict(fn=R + "createfunc@env", recv="self", args=[])},
+   requires=["isinst(self.registry, ScopedRegistry)",
+             "all(isinst(dget(" + SREG + ", k), Session) for k in keys(" + SREG + "))"],
+   ensures=["not dhas(" + SREG + ", " + SKEY + ")",
+            "implies(old(dhas(" + SREG + ", " + SKEY + ")), old(dget(" + SREG + ", " + SKEY + "))._g_closed)",
+            # every other scope keeps its Session, and none of those is closed by this call
+            "forall(lambda q: implies(q is not " + SKEY + ", dhas(" + SREG + ", q) == old(dhas(" + SREG + ", q)) and implies(dhas(" + SREG + ", q), "
+            "dget(" + SREG + ", q) is old(dget(" + SREG + ", q)))))"],
+   modifies=["contents(" + SREG + ")", "dget(" + SREG + ", " + SKEY + ")._g_closed"])
